@@ -348,8 +348,23 @@ def _create_schemas(
     return schemas
 
 
-def _propogate_removal(*, root: ReferencePath | utils.ClassName, schemas: Schemas, error: PropertyError) -> None:
+def _propogate_removal(
+    *,
+    root: ReferencePath | utils.ClassName,
+    schemas: Schemas,
+    error: PropertyError,
+    parent: ReferencePath | None = None,
+) -> None:
     if isinstance(root, utils.ClassName):
+        # `Schemas.dependencies` is shared by every copy of `schemas`, so it also holds what abandoned parse attempts
+        # recorded: a class name listed under `parent` may meanwhile belong to an unrelated schema. A class really
+        # depends on `parent` when one of the schemas it was built from is `parent` or is itself a dependant of it.
+        owner_roots = getattr(schemas.classes_by_name.get(root), "roots", None)
+        if parent is not None and owner_roots is not None:
+            dependants = schemas.dependencies.get(parent, set())
+            built_from = {r for r in owner_roots if not isinstance(r, utils.ClassName)}
+            if built_from and parent not in built_from and built_from.isdisjoint(dependants):
+                return
         schemas.classes_by_name.pop(root, None)
         return
     if root in schemas.classes_by_reference:
@@ -357,7 +372,7 @@ def _propogate_removal(*, root: ReferencePath | utils.ClassName, schemas: Schema
         error.detail += f"\n{root}"
         del schemas.classes_by_reference[root]
         for child in schemas.dependencies.get(root, set()):
-            _propogate_removal(root=child, schemas=schemas, error=error)
+            _propogate_removal(root=child, schemas=schemas, error=error, parent=root)
 
 
 def _process_model_errors(
